@@ -2607,7 +2607,8 @@ static void uv__inotify_read(uv_loop_t* loop,
       events = 0;
       if (e->mask & (IN_ATTRIB|IN_MODIFY))
         events |= UV_CHANGE;
-      if (e->mask & ~(IN_ATTRIB|IN_MODIFY))
+      /* IN_ISDIR only qualifies the event ("the subject is a directory"). */
+      if (e->mask & ~(IN_ATTRIB|IN_MODIFY|IN_ISDIR))
         events |= UV_RENAME;
 
       w = find_watcher(loop, e->wd);
